@@ -295,7 +295,7 @@ func (s *Session) isKnownLocked(sig string) (Known, bool) {
 // it prints the KNOWN-FINDING line (the finding is listed and still
 // reproduces). If the finding is not listed, the same failure is a violation.
 func (s *Session) KnownStillFails(f Failer, c any, sig, what string) {
-	if k, ok := s.IsKnown(sig); ok {
+	if _, ok := s.IsKnown(sig); ok {
 		s.mu.Lock()
 		s.knownHits[sig]++
 		s.mu.Unlock()
